@@ -617,7 +617,9 @@ def hdrDom (h : PeerHdr) : Bool :=
 def monDom : Content → Bool
   | .reach fam e nh _ => !e.isEmpty && (nh.isSome || decide (fam % 256 = 133) || decide (fam % 256 = 134))
   | .unreach _ e => !e.isEmpty
-  | _ => true
+  | .eor _ => true
+  -- a Route Monitoring / BGP4MP item is about an UPDATE; another message is not a monitored route event
+  | .other _ => false
 
 /-- an attribute as `Attribute::decode` builds it: numeric payload exactly for ORIGIN / MED / LOCAL_PREF /
     ORIGINATOR_ID, a value that fits the 16-bit length -/
